@@ -369,7 +369,10 @@ func formatYear(t time.Time, marker *variableMarker) (string, error) {
 	}
 
 	y := t.Year()
-	if size > 0 {
+	// Truncate the year to the requested number of digits. Note
+	// that pow10 overflows (eventually to zero) for widths that
+	// no year can reach, so leave the year alone in that case.
+	if size > 0 && size < 10 {
 		y = y % pow10(size)
 	}
 
